@@ -31,7 +31,6 @@ import (
 	"github.com/openkruise/rollouts/api/v1alpha1"
 	"github.com/openkruise/rollouts/api/v1beta1"
 	batchcontext "github.com/openkruise/rollouts/pkg/controller/batchrelease/context"
-	"github.com/openkruise/rollouts/pkg/controller/batchrelease/control"
 	"github.com/openkruise/rollouts/pkg/controller/batchrelease/control/partitionstyle"
 	deploymentutil "github.com/openkruise/rollouts/pkg/controller/deployment/util"
 	"github.com/openkruise/rollouts/pkg/util"
@@ -119,7 +118,9 @@ func (rc *realController) UpgradeBatch(ctx *batchcontext.BatchContext) error {
 	}
 
 	strategy := util.GetDeploymentStrategy(rc.object)
-	if control.IsCurrentMoreThanOrEqualToDesired(strategy.Partition, ctx.DesiredPartition) {
+	// Compare what the two partitions mean for this deployment's replicas, so that an
+	// integer partition and a percentage partition are compared correctly.
+	if deploymentutil.NewRSReplicasLimit(strategy.Partition, rc.object) >= deploymentutil.NewRSReplicasLimit(ctx.DesiredPartition, rc.object) {
 		return nil // Satisfied, no need patch again.
 	}
 
